@@ -116,7 +116,8 @@ def coq_make(targets, timeout=3000):
     """full .vo build of the given targets (never -vos). returns (ok, log)"""
     coq_makefile()
     t = " ".join(targets)
-    rc, out = sh("timeout %d make -j%d %s 2>&1" % (timeout, NCPU, t), cwd=COQ, timeout=timeout + 60)
+    # a single coqc that needs more than 16 GB of address space is a runaway proof search or computation: fail it
+    rc, out = sh("ulimit -v 16000000 2>/dev/null; timeout %d make -j%d %s 2>&1" % (timeout, NCPU, t), cwd=COQ, timeout=timeout + 60)
     return rc == 0, out
 
 
